@@ -115,7 +115,13 @@ impl<'a> Gen<'a> {
       13 => format!("max({})", self.list(d - 1)),
       14 => format!("string length({})", self.string(d - 1)),
       15 => format!("people[{}].age", self.index()),
-      _ => format!("count(orders[item >= {}])", self.num(d - 1)),
+      _ => {
+        if self.rng.chance(2, 3) {
+          self.bif_num(d - 1)
+        } else {
+          format!("count(orders[item >= {}])", self.num(d - 1))
+        }
+      }
     }
   }
   fn index(&mut self) -> String {
@@ -149,7 +155,72 @@ impl<'a> Gen<'a> {
       7 => format!("not({})", self.boolean(d - 1)),
       8 => format!("(some x in {}, y in xs satisfies x = y)", self.list(d - 1)),
       9 => self.temporal_bool(),
-      _ => format!("({} = {})", self.string(d - 1), self.string(d - 1)),
+      _ => {
+        if self.rng.chance(1, 2) {
+          self.bif_bool(d - 1)
+        } else {
+          format!("({} = {})", self.string(d - 1), self.string(d - 1))
+        }
+      }
+    }
+  }
+  /// A pattern and a flags argument out of small pools: different expressions of one history meet
+  /// with the same pattern and different flags, the same leading arguments and different arities.
+  fn pattern(&mut self) -> &'static str {
+    *self.rng.pick(&["A", "[A-Z]+", "T|L", "a", "E.", "^B"])
+  }
+  fn flags(&mut self) -> &'static str {
+    *self.rng.pick(&["", "", ", \"i\"", ", \"i\"", ", \"s\"", ", \"x\"", ", \"\""])
+  }
+  fn bif_bool(&mut self, d: u32) -> String {
+    match self.rng.index(8) {
+      0 | 1 | 2 => format!("matches({}, \"{}\"{})", self.string(d), self.pattern(), self.flags()),
+      3 => format!("matches(input: {}, pattern: \"{}\")", self.string(d), self.pattern()),
+      4 => format!("contains({}, \"a\")", self.string(d)),
+      5 => format!("starts with({}, \"b\")", self.string(d)),
+      6 => format!("list contains({}, {})", self.list(d), self.num(d)),
+      _ => format!("(day of week(date(\"2021-03-28\")) = \"Sunday\" and {})", self.boolean(d)),
+    }
+  }
+  fn bif_string(&mut self, d: u32) -> String {
+    match self.rng.index(9) {
+      0 | 1 | 2 => format!("replace({}, \"{}\", \"-\"{})", self.string(d), self.pattern(), self.flags()),
+      3 => format!("substring({}, 2, {})", self.string(d), 1 + self.rng.below(3)),
+      4 => format!("substring before({}, \"a\")", self.string(d)),
+      5 => format!("substring after({}, \"a\")", self.string(d)),
+      6 => format!("lower case({})", self.string(d)),
+      7 => format!("string(date(2021, 3, {}) + duration(\"P{}D\"))", 1 + self.rng.below(28), self.rng.below(40)),
+      _ => format!("string(decimal({}, {}))", self.num(d), self.rng.below(4)),
+    }
+  }
+  fn bif_list(&mut self, d: u32) -> String {
+    match self.rng.index(12) {
+      0 | 1 | 2 => format!("split({}, \"{}\")", self.string(d), self.pattern()),
+      3 => format!("index of({}, {})", self.list(d), self.num(d)),
+      4 => format!("append({}, {})", self.list(d), self.num(d)),
+      5 => format!("distinct values({})", self.list(d)),
+      6 => format!("reverse({})", self.list(d)),
+      7 => format!("sublist({}, 1, {})", self.list(d), 1 + self.rng.below(3)),
+      8 => format!("union({}, {})", self.list(d), self.list(d)),
+      9 => format!("insert before({}, 1, {})", self.list(d), self.num(d)),
+      10 => format!("remove({}, 1)", self.list(d)),
+      _ => format!("concatenate({}, {})", self.list(d), self.list(d)),
+    }
+  }
+  fn bif_num(&mut self, d: u32) -> String {
+    match self.rng.index(12) {
+      0 => format!("min({})", self.list(d)),
+      1 => format!("mean({})", self.list(d)),
+      2 => format!("abs({})", self.num(d)),
+      3 => format!("floor({} / 3)", self.num(d)),
+      4 => format!("ceiling({} / 3)", self.num(d)),
+      5 => format!("decimal({} / 7, {})", self.num(d), self.rng.below(5)),
+      6 => format!("modulo({}, 3)", self.num(d)),
+      7 => format!("product({})", self.list(d)),
+      8 => format!("median({})", self.list(d)),
+      9 => format!("stddev({})", self.list(d)),
+      10 => format!("date(\"2021-03-{:02}\").day", 1 + self.rng.below(28)),
+      _ => format!("years and months duration(date(\"2020-01-01\"), date(2021, 3, {})).months", 1 + self.rng.below(28)),
     }
   }
   fn temporal_bool(&mut self) -> String {
@@ -198,7 +269,13 @@ impl<'a> Gen<'a> {
       13 => format!("(for x in {} return {{k: x, m: k + 1}}.m)", self.list(d - 1)),
       14 => format!("orders[item > {}].qty", self.num(d - 1)),
       15 => format!("orders[qty > {}].item", self.num(d - 1)),
-      _ => format!("(for o in orders[item < {}] return o.item + o.qty)", self.num(d - 1)),
+      _ => {
+        if self.rng.chance(2, 3) {
+          self.bif_list(d - 1)
+        } else {
+          format!("(for o in orders[item < {}] return o.item + o.qty)", self.num(d - 1))
+        }
+      }
     }
   }
   fn string(&mut self, d: u32) -> String {
@@ -217,7 +294,13 @@ impl<'a> Gen<'a> {
       2 => format!("upper case({})", self.string(d - 1)),
       3 => format!("substring({}, 2)", self.string(d - 1)),
       4 => format!("(if {} then {} else \"no\")", self.boolean(d - 1), self.string(d - 1)),
-      _ => format!("{{t: {}, r: t + \"!\"}}.r", self.string(d - 1)),
+      _ => {
+        if self.rng.chance(2, 3) {
+          self.bif_string(d - 1)
+        } else {
+          format!("{{t: {}, r: t + \"!\"}}.r", self.string(d - 1))
+        }
+      }
     }
   }
   fn any(&mut self, d: u32) -> String {
@@ -952,7 +1035,7 @@ impl Sim for C13 {
     let mut rng = Rng::new(derive(seed, "C13", run));
     let n_scopes = 2 + rng.index(3);
     let scopes: Vec<Value> = (0..n_scopes).map(|_| json!({"v": rng.below(6), "layers": 1 + rng.below(3)})).collect();
-    let n_exprs = 3 + rng.index(6);
+    let mut n_exprs = 3 + rng.index(6);
     let mut exprs = vec![];
     for _ in 0..n_exprs {
       let depth = 1 + rng.index(3) as u32;
@@ -960,6 +1043,27 @@ impl Sim for C13 {
       let text = g.any(depth);
       let cb = g.clock_bound;
       exprs.push(json!({"text": text, "clock_bound": cb, "home": rng.index(n_scopes)}));
+    }
+    // siblings: two expressions that differ in an optional argument only (flags, length, scale) or
+    // apply the same pattern through different functions - what one leaves behind the other would meet
+    if rng.chance(1, 3) {
+      let subject = *rng.pick(&["s", "Customer", "names[2]", "p.name", "upper case(s)"]);
+      let pattern = *rng.pick(&["A", "[A-Z]+", "T|L", "a", "E.", "^B", "(?i)a"]);
+      let (x, y) = match rng.index(9) {
+        0 => (format!("matches({}, \"{}\")", subject, pattern), format!("matches({}, \"{}\", \"i\")", subject, pattern)),
+        1 => (format!("replace({}, \"{}\", \"-\")", subject, pattern), format!("replace({}, \"{}\", \"-\", \"i\")", subject, pattern)),
+        2 => (format!("matches({}, \"{}\", \"i\")", subject, pattern), format!("matches({}, \"{}\", \"x\")", subject, pattern)),
+        3 => (format!("split({}, \"{}\")", subject, pattern), format!("replace({}, \"{}\", \"-\", \"i\")", subject, pattern)),
+        4 => (format!("replace({}, \"{}\", \"-\", \"i\")", subject, pattern), format!("split({}, \"{}\")", subject, pattern)),
+        5 => (format!("substring({}, 2)", subject), format!("substring({}, 2, 1)", subject)),
+        6 => ("decimal(a / 7, 2)".to_string(), "decimal(a / 7, 4)".to_string()),
+        7 => ("sort(xs, function(x, y) x < y)".to_string(), "sort(xs, function(x, y) x > y)".to_string()),
+        _ => ("sublist(xs, 2)".to_string(), "sublist(xs, 2, 1)".to_string()),
+      };
+      let home = rng.index(n_scopes);
+      exprs.push(json!({"text": x, "clock_bound": false, "home": home}));
+      exprs.push(json!({"text": y, "clock_bound": false, "home": home}));
+      n_exprs += 2;
     }
     let n_ctxs = rng.index(3);
     let mut ctxs = vec![];
